@@ -139,7 +139,7 @@ pub fn exec(op: &str, a: &[u64]) -> Result<Outcome, String> {
 }
 
 pub fn run_c19(ctx: &mut Ctx) {
-    let n_cases = ctx.budget(120, 4000);
+    let n_cases = ctx.budget(300, 6000);
     for i in 0..n_cases {
         let alpha: &[&str] = match i % 4 {
             0 => &["a"],
@@ -153,7 +153,8 @@ pub fn run_c19(ctx: &mut Ctx) {
                 let nw = ctx.rng.random_range(0..=4);
                 (0..nw)
                     .map(|_| {
-                        let l = ctx.rng.random_range(1..=5);
+                        // long words over one or two letters: several levels of merges of the same pair (aa, aaaa, abab)
+                        let l = if ctx.rng.random_range(0..5) == 0 { ctx.rng.random_range(6..=12) } else { ctx.rng.random_range(1..=5) };
                         (0..l).map(|_| alpha[ctx.rng.random_range(0..alpha.len())]).collect::<String>()
                     })
                     .collect::<Vec<_>>()
